@@ -40,10 +40,12 @@ type EngScenario struct {
 	Kinds    [][]string `json:"kinds"`    // realisation of each single edge (filled in by the harness)
 	Lookups  []int      `json:"lookups"`  // post-run GetComponentByName calls
 	Seed     int64      `json:"seed"`
-	Sparse   bool       `json:"sparse"` // snapshots list only non-empty entries (large N)
-	Procs    []bool     `json:"procs"`  // user post-processors that are components themselves; true = LazyInit
-	Mode     []string   `json:"mode"`   // per node: normal | beforeNil | shortcut (lifecycle imposed by the rig processor)
-	Quiet    bool       `json:"quiet"`  // a user instantiation-aware processor ordered FIRST that answers false to PostProcessAfterInstantiation
+	Sparse   bool       `json:"sparse"`  // snapshots list only non-empty entries (large N)
+	Procs    []bool     `json:"procs"`   // user post-processors that are components themselves; true = LazyInit
+	Mode     []string   `json:"mode"`    // per node: normal | beforeNil | shortcut (lifecycle imposed by the rig processor)
+	Quiet    bool       `json:"quiet"`   // a user instantiation-aware processor ordered FIRST that answers false to PostProcessAfterInstantiation
+	Runners  []int      `json:"runners"` // nodes that are application runners (held by the App's runner slice)
+	ROrder   []int      `json:"rorder"`  // the runner nodes in candidate iteration order (computed here from order)
 }
 
 // quietProc keeps the library's default answer (false) to PostProcessAfterInstantiation.  That only skips ITS OWN
@@ -480,7 +482,7 @@ func chooseKinds(sc *EngScenario, rnd *rand.Rand) {
 		ks := make([]string, len(sc.Single[h-1]))
 		for i, t := range sc.Single[h-1] {
 			opts := []string{"name-iface"}
-			if t <= poolK && sc.Wrap[t-1] == "none" && h <= poolK {
+			if t <= poolK && sc.Wrap[t-1] == "none" && h <= poolK && !contains(sc.Runners, t) && !contains(sc.Runners, h) {
 				opts = append(opts, "name-ptr", "type-ptr")
 			}
 			ks[i] = opts[rnd.Intn(len(opts))]
@@ -491,6 +493,15 @@ func chooseKinds(sc *EngScenario, rnd *rand.Rand) {
 
 func runEngScenario(sc *EngScenario) []map[string]any {
 	rnd := rand.New(rand.NewSource(sc.Seed))
+	if sc.Runners == nil {
+		sc.Runners = []int{}
+	}
+	sc.ROrder = []int{}
+	for _, x := range sc.Order {
+		if contains(sc.Runners, x) {
+			sc.ROrder = append(sc.ROrder, x)
+		}
+	}
 	chooseKinds(sc, rnd)
 	e := &env{sc: sc, objTag: map[any]string{}, objNode: map[any]int{}, metaKind: map[*component_definition.Meta]string{},
 		earlyRan: make([]int, sc.N), earlyTotal: make([]int, sc.N), creating: map[int]bool{}, lastWe: map[int]any{}}
@@ -500,7 +511,7 @@ func runEngScenario(sc *EngScenario) []map[string]any {
 	tab := map[string]map[string]string{}
 	allNodes := true
 	for i := 1; i <= sc.N; i++ {
-		c, b := newPoolNode(i, contains(sc.Lazy, i))
+		c, b := newPoolNode(i, contains(sc.Lazy, i), contains(sc.Runners, i))
 		b.e, b.id = e, i
 		e.objs[i], comps[i] = c, c
 		e.objTag[c], e.objNode[c] = "raw", i
